@@ -1,8 +1,11 @@
 package main
 
 import (
+	"bytes"
 	"fmt"
 	"io"
+	"runtime"
+	"strconv"
 	"sync"
 
 	"github.com/douban/gobeansdb/loghub"
@@ -13,8 +16,9 @@ import (
 // in-process through recover().
 type quietHub struct {
 	mu   sync.Mutex
-	last string
-	errs int
+	last  string
+	errs  int
+	fatal string
 }
 
 type fatalError struct{ msg string }
@@ -29,9 +33,42 @@ func (h *quietHub) Log(name string, level int, file string, line int, msg string
 		h.mu.Unlock()
 	}
 	if level == loghub.FATAL {
-		panic(fatalError{fmt.Sprintf("%s:%d %s", file, line, msg)})
+		m := fmt.Sprintf("%s:%d %s", file, line, msg)
+		if curGID() == mainGID {
+			panic(fatalError{m}) // recovered by guard(): the command's observed result is FATAL
+		}
+		// a goroutine of the store (post-rotation flush, background hint check, GC) hit a fatal
+		// error: the real process would exit here.  Record it and end that goroutine (deferred
+		// calls run), the harness reports it after the current command.
+		h.mu.Lock()
+		if h.fatal == "" {
+			h.fatal = m
+		}
+		h.mu.Unlock()
+		runtime.Goexit()
 	}
 }
+
+func (h *quietHub) takeFatal() string {
+	h.mu.Lock()
+	defer h.mu.Unlock()
+	f := h.fatal
+	h.fatal = ""
+	return f
+}
+
+func curGID() int64 {
+	var buf [64]byte
+	n := runtime.Stack(buf[:], false)
+	f := bytes.Fields(buf[:n])
+	if len(f) < 2 {
+		return -1
+	}
+	id, _ := strconv.ParseInt(string(f[1]), 10, 64)
+	return id
+}
+
+var mainGID = curGID()
 func (h *quietHub) Reopen(path string) error           { return nil }
 func (h *quietHub) GetLastLog() []byte                 { return nil }
 func (h *quietHub) DumpBuffer(all bool, out io.Writer) {}
